@@ -30,7 +30,8 @@ def gen_specs(rng: random.Random, tier: str, n: int) -> list[dict]:
     for i in range(n):
         seed = rng.getrandbits(48)
         big = tier == "thorough" and i % 400 == 0
-        specs.append(_gen.gen_spec(rng, seed, 7 if tier == "quick" else 12, constrained_bias=0.5, big=big))
+        long = i % 100 == 7
+        specs.append(_gen.gen_spec(rng, seed, 7 if tier == "quick" else 12, constrained_bias=0.5, big=big, long=long))
     return specs
 
 
@@ -94,6 +95,8 @@ def run_one(spec: dict) -> dict:
         stats["probe_degenerate_1xn"] = 1
     if r != c:
         stats["probe_oblong"] = 1
+    if max(r, c) >= 128:
+        stats["probe_side_at_least_128"] = 1
     nontrivial = log.digest() if r * c >= 2 else None
     return core.ok(log, stats=stats, nontrivial=nontrivial)
 
